@@ -13,6 +13,7 @@ fn main() {
             let prop = args[2].as_str();
             let tier = args.get(3).map(String::as_str).unwrap_or("quick");
             let tier = std::env::var("VERIF_TIER").ok().filter(|t| t == "quick" || t == "thorough").unwrap_or(tier.to_string());
+            util::set_run_context(prop, &tier);
             let t0 = Instant::now();
             let res = std::panic::catch_unwind(|| props::run_property(prop, &tier));
             let out = match res {
